@@ -412,6 +412,47 @@ def gen_bt_array(repo):
     return m
 
 
+def gen_append_timing(repo):
+    """T18: append_timing / append_timestamps of the three strategies, and the dispatch in Timing"""
+    ast = T.ast
+    base = f"{repo}/src/nitypes/waveform/_timing"
+    m = T.Module(f"{base}/_sample_interval/_none.py", "Gen.AppendTiming")
+    m.extra_imports = ["NiVerif.Model.Wfm"]
+    for fname, cls, tag in (("_none.py", "NoneSampleIntervalStrategy", "none"), ("_regular.py", "RegularSampleIntervalStrategy", "regular"),
+                            ("_irregular.py", "IrregularSampleIntervalStrategy", "irregular")):
+        m2 = T.Module(f"{base}/_sample_interval/{fname}", "Gen.AppendTiming")
+        m2.translate_append_timing(cls, tag)
+        m.out += m2.out
+    # Timing._append_timing / _append_timestamps hand the call to the strategy of the receiver's mode
+    mt = T.Module(f"{base}/_timing.py", "Gen.AppendTiming")
+    want = {"_append_timing": "if not isinstance(other, self.__class__):\n    raise TypeError('The input waveform(s) must have the same waveform timing type as the current waveform.')\n"
+                              "new_timing = self._sample_interval_strategy.append_timing(self, other)\nassert isinstance(new_timing, self.__class__)\nreturn new_timing",
+            "_append_timestamps": "new_timing = self._sample_interval_strategy.append_timestamps(self, timestamps)\nassert isinstance(new_timing, self.__class__)\nreturn new_timing"}
+    for name, w in want.items():
+        fn = mt.find_func("Timing", name)
+        got = "\n".join(ast.unparse(st) for st in fn.body if not (isinstance(st, ast.Expr) and isinstance(st.value, ast.Constant)))
+        if got != w:
+            raise T.Untranslatable(f"Timing.{name} is not the plain hand-over to the strategy:\n{got}", fn, mt.path)
+    ms = T.Module(f"{base}/_sample_interval/__init__.py", "Gen.AppendTiming")
+    table = None
+    for n in ms.tree.body:
+        tgt = n.target if isinstance(n, ast.AnnAssign) else (n.targets[0] if isinstance(n, ast.Assign) else None)
+        if isinstance(tgt, ast.Name) and tgt.id == "_SAMPLE_INTERVAL_STRATEGY_TYPE_FOR_MODE" and isinstance(n.value, ast.Dict):
+            table = {ast.unparse(k): ast.unparse(v) for k, v in zip(n.value.keys, n.value.values)}
+    exp = {"SampleIntervalMode.NONE": "NoneSampleIntervalStrategy", "SampleIntervalMode.REGULAR": "RegularSampleIntervalStrategy", "SampleIntervalMode.IRREGULAR": "IrregularSampleIntervalStrategy"}
+    if table != exp:
+        raise T.Untranslatable(f"strategy table {table}, expected {exp}", where=ms.path)
+    m.out.append("/-- generated from `Timing._append_timing` and the strategy table: the strategy of the RECEIVER's mode decides -/")
+    m.out.append("@[pygen] def append_timing (timing other : Model.Wfm.WTiming) : Except PyErr (Model.Wfm.WTiming × List Model.Wfm.Warning) :=")
+    m.out.append("  match timing.mode with\n  | .none => none_append_timing timing other\n  | .regular => regular_append_timing timing other\n  | .irregular => irregular_append_timing timing other")
+    m.out.append("")
+    m.out.append("/-- generated from `Timing._append_timestamps` and the strategy table -/")
+    m.out.append("@[pygen] def append_timestamps (timing : Model.Wfm.WTiming) (timestamps : Option (List Int)) (types_ok : Bool) : Except PyErr Model.Wfm.WTiming :=")
+    m.out.append("  match timing.mode with\n  | .none => none_append_timestamps timing timestamps types_ok\n  | .regular => regular_append_timestamps timing timestamps types_ok\n  | .irregular => irregular_append_timestamps timing timestamps types_ok")
+    m.out.append("")
+    return m
+
+
 MODULES = [
     # (output file, builder, dependencies by output name)
     ("TimeValueTuple", lambda repo, deps: gen_time_value_tuple(repo), []),
@@ -436,6 +477,7 @@ MODULES = [
     ("Units", lambda repo, deps: gen_units(repo), []),
     ("Names", lambda repo, deps: gen_names(repo), []),
     ("BtArray", lambda repo, deps: gen_bt_array(repo), []),
+    ("AppendTiming", lambda repo, deps: gen_append_timing(repo), []),
 ]
 
 
